@@ -372,6 +372,10 @@ class Project:
             d = os.path.dirname(d)
         for dn in prog.get('mkdirs', []):
             os.makedirs(os.path.join(self.dir, dn), exist_ok=True)
+        if any(len(c) > 4 and c[4] for c in prog.get('cmds', [])):
+            # commands started in subdirectories: the project is the nearest ancestor that has a .redo directory (a first
+            # command started below the top would otherwise make its own working directory the project)
+            os.makedirs(os.path.join(self.dir, '.redo'), exist_ok=True)
         for n in prog['init']:
             if n in prog['rules']:
                 self.write_do(n, 1)
@@ -458,7 +462,7 @@ class Project:
         other.vtlog = os.path.join(dst, 'vt.log')
         return other
 
-    def run(self, argv, timeout=60, extra_env=None, gate=None):
+    def run(self, argv, timeout=60, extra_env=None, gate=None, cwd=''):
         """run a top-level command; returns (rc, stdout, stderr, started-list, timed_out)"""
         self.cmdno += 1
         try:
@@ -467,8 +471,8 @@ class Project:
             pass
         if gate:
             extra_env = dict(extra_env or {}, **gate.env())
-        p = subprocess.Popen(argv, cwd=self.dir, env=self.env(extra_env), stdin=subprocess.DEVNULL,
-                             stdout=subprocess.PIPE, stderr=subprocess.PIPE, start_new_session=True)
+        p = subprocess.Popen(argv, cwd=os.path.join(self.dir, cwd) if cwd else self.dir, env=self.env(extra_env),
+                             stdin=subprocess.DEVNULL, stdout=subprocess.PIPE, stderr=subprocess.PIPE, start_new_session=True)
         if gate:
             gate.pgid = p.pid
         stop = []
@@ -657,11 +661,11 @@ def step_input(step):
     a = step['a']
     if a == 'cmd':
         return ('cmd', step['kind'], tuple(step['targs']), bool(step['keep']), step.get('j', 1)) + \
-            (('killed',) if step.get('killed') else ())
+            ((('cwd', step['cwd']),) if step.get('cwd') else ()) + (('killed',) if step.get('killed') else ())
     if a == 'crash':
         return ('crash', step['kind'], tuple(step['targs']), bool(step['keep']), step.get('j', 1))
     if a == 'query':
-        return ('query', step['kind'])
+        return ('query', step['kind']) + ((('cwd', step['cwd']),) if step.get('cwd') else ())
     return (a, step['n'], step.get('v'))
 
 
@@ -786,7 +790,7 @@ def replay_group(prog, alts, root, bindir, trace=None, log_mode=None, jflag=None
             pre = pj.snapshot()['files'] if watch else None
             ser = Serializer(os.path.join(root, 'sgate%d' % i), sched_seed * 1000 + i) if sched_seed is not None else None
             try:
-                rc, so, se, started, to = pj.run(argv, timeout=cmd_timeout, extra_env=extra, gate=ser)
+                rc, so, se, started, to = pj.run(argv, timeout=cmd_timeout, extra_env=extra, gate=ser, cwd=step.get('cwd', ''))
             finally:
                 if ser:
                     ser.close()
@@ -835,8 +839,9 @@ def replay_group(prog, alts, root, bindir, trace=None, log_mode=None, jflag=None
             live = nxt
         elif a == 'query':
             argv = ['redo-' + step['kind']]
-            rc, so, se, started, to = pj.run(argv, timeout=cmd_timeout)
-            got = sorted(x for x in so.split('\n') if x)
+            rc, so, se, started, to = pj.run(argv, timeout=cmd_timeout, cwd=step.get('cwd', ''))
+            # (the queries print names relative to the working directory)
+            got = sorted(os.path.normpath(os.path.join(step.get('cwd', ''), x)) for x in so.split('\n') if x)
             qsnap = pj.snapshot()
             best = None
             nxt = []
